@@ -31,20 +31,22 @@ def main():
     # rebase worktree on /repo HEAD
     sh("git checkout -q --detach $(git -C /repo rev-parse HEAD)", wt)
     d = open(demo).read()
-    tests = re.findall(r"^\+\s*(?:pub )?fn (test_\w+)\s*\(", d, re.M)
+    tests = re.findall(r"^\+\s*#\[(?:tokio::)?test[^\]]*\]\s*\n(?:\+\s*#\[[^\n]*\n)*\+\s*(?:pub )?(?:async )?fn (\w+)\s*\(", d, re.M)
     if not tests:
-        tests = re.findall(r"^\+\s*#\[test\]\s*\n\+\s*(?:pub )?fn (\w+)\s*\(", d, re.M)
+        tests = re.findall(r"^\+\s*(?:pub )?fn (test_\w+)\s*\(", d, re.M)
     files = re.findall(r"^\+\+\+ b/(\S+)", d, re.M)
     crate = files[0].split("/")[1] if files else "mdk-core"
     if not tests:
         print("no test fn found in demo.diff"); return 2
     tname = tests[0]
     newfile = [f for f in files if "/tests/" in f]
-    if newfile and len(tests) > 1:
+    if newfile:
         tname = "--test " + os.path.basename(newfile[0])[:-3]
     out = {"seed_id": sid, "property": meta_in.get("property"), "title": meta_in.get("title"), "what_breaks": meta_in.get("what_breaks"),
            "needs_to_manifest": meta_in.get("needs_to_manifest"), "files_touched": meta_in.get("files_touched"), "demo_test": tname, "ran": []}
     feat = ""
+    if "encrypted_media" in d + open(patch).read() or "mip04" in json.dumps(meta_in):
+        feat = "--features mip04"
     rc, o = sh("git apply %s" % demo, wt)
     if rc != 0:
         print("demo does not apply:", o[-500:]); return 2
